@@ -12,6 +12,7 @@ import (
 	"unicode"
 
 	"github.com/ProtonMail/go-crypto/openpgp"
+	"github.com/ProtonMail/go-crypto/openpgp/armor"
 	"github.com/ProtonMail/go-crypto/openpgp/clearsign"
 	"github.com/ProtonMail/go-crypto/openpgp/packet"
 	"github.com/goreleaser/nfpm/v2"
@@ -121,7 +122,48 @@ func PGPClearSignWithKeyID(message io.Reader, keyFile, passphrase string, hexKey
 		return nil, fmt.Errorf("clear sign: %w", err)
 	}
 
-	return signature.Bytes(), nil
+	signed, err := withArmorChecksum(signature.Bytes())
+	if err != nil {
+		return nil, fmt.Errorf("clear sign: %w", err)
+	}
+
+	return signed, nil
+}
+
+// withArmorChecksum re-armors the signature block of a clear-signed message
+// with the CRC-24 line that clearsign.Encode leaves out. Without it, GnuPG 2.2
+// cannot find the end of a signature whose base64 body needs no padding (for
+// example every RSA-3072 signature) and rejects the message.
+func withArmorChecksum(signed []byte) ([]byte, error) {
+	const begin = "-----BEGIN PGP SIGNATURE-----"
+	idx := bytes.LastIndex(signed, []byte(begin))
+	if idx < 0 {
+		return nil, errors.New("no signature block in clear-signed message")
+	}
+	block, err := armor.Decode(bytes.NewReader(signed[idx:]))
+	if err != nil {
+		return nil, err
+	}
+	sig, err := io.ReadAll(block.Body)
+	if err != nil {
+		return nil, err
+	}
+
+	var out bytes.Buffer
+	out.Write(signed[:idx])
+	w, err := armor.Encode(&out, block.Type, block.Header)
+	if err != nil {
+		return nil, err
+	}
+	if _, err := w.Write(sig); err != nil {
+		return nil, err
+	}
+	if err := w.Close(); err != nil {
+		return nil, err
+	}
+	out.WriteByte('\n')
+
+	return out.Bytes(), nil
 }
 
 // PGPVerify is exported for use in tests and verifies an ASCII-armored or non-ASCII-armored
